@@ -350,6 +350,56 @@ theorem include_zone_refuted :
     ∃ (sSod : Nat) (off : Int) (a : DateArg), normDateArg sSod a ≠ intendedDateArg sSod off a :=
   ⟨36000, 18000, .date 738947, by simp [normDateArg, intendedDateArg]⟩
 
+/-! ## One schedule per call: the `@memorable` state cache -/
+
+/-- **cache_key_injective.** The key separates any two different calls: same key ⇒ same
+    context, same positional values, same keyword names *and values*. -/
+theorem cache_key_injective (c₁ c₂ : Call) (h : cacheKey c₁ = cacheKey c₂) : c₁ = c₂ := by
+  cases c₁; cases c₂
+  simp only [cacheKey, keyWith, keyParts, List.map, KeyPart.of, List.cons.injEq, KeyVal.ctx.injEq,
+    KeyVal.vals.injEq, KeyVal.items.injEq, and_true] at h
+  obtain ⟨h1, h2, h3⟩ := h
+  subst h1; subst h2; subst h3
+  rfl
+
+/-- **rows_share_one_schedule.** Evaluating the same call again (the next row of the template)
+    returns the state made the first time and leaves the store alone — so successive rows draw
+    successive occurrences from one `CalendarRule`: one row per occurrence. Holds for any key. -/
+theorem rows_share_one_schedule {σ : Type} (parts : List KeyPart) (make : Call → σ) (st : Store σ) (c : Call) :
+    evalMemo parts make (evalMemo parts make st c).2 c = ((evalMemo parts make st c).1, (evalMemo parts make st c).2) := by
+  unfold evalMemo
+  cases h : List.lookup (keyWith parts c) st with
+  | some v => simp [h]
+  | none => simp [List.lookup]
+
+/-- **distinct_calls_get_distinct_schedules.** With the pinned key, a call that differs from every
+    call evaluated so far — in any value — gets its own freshly made state, never another call's. -/
+theorem distinct_calls_get_distinct_schedules {σ : Type} (make : Call → σ) (st : Store σ) (c₁ c₂ : Call)
+    (hne : c₁ ≠ c₂) (hfresh : st.lookup (cacheKey c₂) = none) :
+    (evalMemo keyParts make (evalMemo keyParts make st c₁).2 c₂).1 = make c₂ := by
+  have hk : cacheKey c₂ ≠ cacheKey c₁ := fun h => hne (cache_key_injective _ _ h).symm
+  have hk' : (cacheKey c₂ == cacheKey c₁) = false := by simpa using hk
+  unfold evalMemo
+  change (match List.lookup (cacheKey c₂) (match List.lookup (cacheKey c₁) st with
+      | some v => (v, st)
+      | none => (make c₁, (cacheKey c₁, make c₁) :: st)).2 with
+    | some v => (v, _)
+    | none => (make c₂, _)).1 = make c₂
+  cases h1 : List.lookup (cacheKey c₁) st with
+  | some v => simp [hfresh]
+  | none => simp [List.lookup, hk', hfresh]
+
+/-- why the *values* must be in the key: a key made of the context, the number of positional
+    arguments and the keyword *names* confuses `Event(start_date=A)` with `Event(start_date=B)`,
+    and the second call is then handed the first call's schedule -/
+example :
+    let a : Call := ⟨7, [], [("freq", 1), ("start_date", 2000), ("count", 2)]⟩
+    let b : Call := ⟨7, [], [("freq", 1), ("start_date", 2010), ("count", 2)]⟩
+    a ≠ b ∧ keyWith [.contextId, .argCount, .kwargNames] a = keyWith [.contextId, .argCount, .kwargNames] b ∧
+      (evalMemo [.contextId, .argCount, .kwargNames] id (evalMemo [.contextId, .argCount, .kwargNames] id [] a).2 b).1 = a ∧
+      (evalMemo keyParts id (evalMemo keyParts id [] a).2 b).1 = b := by
+  decide
+
 /-! ## Precision of the emitted values -/
 
 /-- **precision.** A field (`next()`) with a date-precision start sees the local calendar date
